@@ -71,9 +71,9 @@ PROPERTIES = {
     },
     "C08": {
         "units": ["U-rulemap", "U-inspect"],
-        "claim": "Matcher prefix index, query side only: RuledefMap::query_prefixed(q) returns, for every i up to the number of leading non-NUL characters of q (at most 4), exactly the bucket stored under q truncated to i characters, and nothing for longer prefixes - so a rule filed under a key that is a truncation of the instruction's prefix is always among the candidates, and no other bucket is consulted. Static-value switch: is_value_statically_known is exactly the conjunction over all evaluated sub-expressions (so freezing an item after the first pass cannot skip an expression that depends on a symbol).",
-        "not_reached": "RuledefMap::insert/build (HashMap entry API, iterator adapters) and parse_prefix (tokenizer): that a rule which matches an instruction is filed under a truncation of the instruction's prefix; the whole static-value optimisation (expr::inspect, resolved flags) - a relation between two executions of the evaluator",
-        "trusted_base": ["ASSUMED: obeys_key_model::<[char; 4]>() (structural Hash/Eq of char arrays)", "vstd's HashMap::get specification"],
+        "claim": "Matcher prefix index: RuledefMap::insert files a rule under exactly its first <= 4 leading literal characters, lower-cased and NUL-padded (stopping at the first non-literal part), appending to that bucket and touching no other; RuledefMap::query_prefixed(q) returns, for every i up to the number of leading non-NUL characters of q (at most 4), exactly the bucket stored under q truncated to i characters, and nothing for longer prefixes - so a rule filed under a key that is a truncation of the instruction's prefix is always among the candidates, and no other bucket is consulted. Static-value switch: is_value_statically_known is exactly the conjunction over all evaluated sub-expressions (so freezing an item after the first pass cannot skip an expression that depends on a symbol).",
+        "not_reached": "RuledefMap::build (iterator adapter over rule refs) and parse_prefix (tokenizer): that a rule which matches an instruction is filed under a truncation of the instruction's prefix; the whole static-value optimisation (expr::inspect, resolved flags) - a relation between two executions of the evaluator",
+        "trusted_base": ["ASSUMED: obeys_key_model::<[char; 4]>() (structural Hash/Eq of char arrays)", "vstd's HashMap::get specification", "ASSUMED contract of the R19 wrapper for HashMap::entry(..).or_insert_with(..).push(..); char::to_ascii_lowercase as an uninterpreted function"],
     },
     "C15": {
         "units": ["U-symbols"],
